@@ -1,5 +1,5 @@
 (* Ops.v — composite operations exposed to the correspondence check (end to end from bytes). *)
-From GQL.model Require Import Base Utf8 Lexer Ast Parser Prog ParseQuery ParseSchema Json.
+From GQL.model Require Import Base Utf8 Lexer Ast Parser Prog ParseQuery ParseSchema Json Format.
 
 Definition dump_json_roundtrip (d : dev) (input : str) : str :=
   match parseQuery d 0 input with
@@ -12,3 +12,34 @@ Definition dump_json_roundtrip (d : dev) (input : str) : str :=
     end
   | PErr e => dump_perr e
   end.
+
+(* format . parse round trip of an executable document:
+   formatted text | re-parsed tree | is formatting the re-parsed tree the same text *)
+Definition dump_format_query (d : dev) (o : fopts) (input : str) : str :=
+  match parseQuery d 0 input with
+  | PErr e => dump_perr e
+  | POk doc =>
+    let t := FormatQueryDocument o doc in
+    hex t ++ 124%N ::
+    match parseQuery d 0 t with
+    | PErr e => dump_perr e
+    | POk d2 => b "ok " ++ dump_qdoc false d2 ++ 124%N ::
+                (if str_eqb (FormatQueryDocument o d2) t then b "1" else b "0")
+    end
+  end.
+
+Definition dump_format_schema (d : dev) (o : fopts) (builtin : bool) (input : str) : str :=
+  match parseSchema d 0 0 builtin input with
+  | PErr e => dump_perr e
+  | POk doc =>
+    let t := FormatSchemaDocument d o doc (fun _ => builtin) in
+    hex t ++ 124%N ::
+    match parseSchema d 0 0 builtin t with
+    | PErr e => dump_perr e
+    | POk d2 => b "ok " ++ dump_sdoc false d2 ++ 124%N ::
+                (if str_eqb (FormatSchemaDocument d o d2 (fun _ => builtin)) t then b "1" else b "0")
+    end
+  end.
+
+Definition mk_fopts (flags : str) (indent : str) : fopts :=
+  mkFOpts indent (existsb (N.eqb 98) flags) (existsb (N.eqb 100) flags) (existsb (N.eqb 99) flags).
